@@ -316,6 +316,19 @@ fn digest_binding_and_formulas(report: &Report, cli: &Cli) {
                         }
                     }
                 }
+                // entries of the signature set added / removed (count fields with their elements,
+                // every element size up to two-signature credentials)
+                let sizes: Vec<usize> = (1..=140).collect();
+                for (what, eb) in count_field_edits_sizes(&full[..sig_len], &sizes) {
+                    let mut m = eb;
+                    m.extend_from_slice(&full[sig_len..]);
+                    if let Ok(t2) = from_bytes::<AccountTransaction<EncodedPayload>, _>(&mut &m[..]) {
+                        report.trace(1);
+                        if m != full && t2.verify_transaction_signature(&acc) {
+                            return fail("altered-signature-set-verifies", json!({"edit": what}));
+                        }
+                    }
+                }
                 // key set: any registered key replaced makes verification fail
                 for (c, k) in [(0u8, 0u8), (0, 1), (1, 0)] {
                     let mut acc2 = acc.clone();
